@@ -11,7 +11,7 @@ import PynencModel.Model.Json
              cid.batch <nc> {<k> <v>}* <no> {<k> <v>}*
              cid.batchcall <np> {<name> <default|->}* <nc> {<k> <v>}* <no> {<k> <v>}*
   store      cds.new <disabled> <min> <max> <cache> | cds.obj <addr> <ser> <sha> <str|-> | cds.ser <addr> <disable>
-             cds.res <data> | cds.purge | cds.dis <key> {<name>}*
+             cds.res <data> | cds.purge | cds.fpurge | cds.fres <data> | cds.dis <key> {<name>}*
   json       json.builtins {<name>}* | json.class <mod> <qual> <exc|obj|enum0|enum1> <members tree>
              json.enc <tree> | json.recon <tree> | json.rt <tree> | json.wf <tree>
   Strings are tokens of `Proto` (`x<hex utf-8>`, `e`, `-`); trees use the one-token syntax of `parseVal`.
@@ -379,6 +379,15 @@ def handle (w : St) : List String → Option (St × String)
         | .deserError => "err deser")
     | none => (w, "bad-op")
   | ["cds.purge"] => some ({ w with store := CDS.purge w.store }, "ok")
+  | ["cds.fpurge"] => some ({ w with store := CDS.foreignPurge w.store }, "ok")
+  | ["cds.fres", data] => some <|
+    match str? data with
+    | some d =>
+      (w, match CDS.freshResolve (fun s => some (CDS.Obj.fresh s)) w.conf w.store d with
+        | .ok o => "ok " ++ tokS (w.ser o)
+        | .keyError => "err keyerror"
+        | .deserError => "err deser")
+    | none => (w, "bad-op")
   | "cds.dis" :: key :: names => some <|
     match str? key, names.mapM str? with
     | some k, some ns => (w, toString (CDS.disableFor ns k))
